@@ -192,7 +192,7 @@ def _doc_part2_(pos, kind, inline, siblings=False):
     elif pos == "addl":
         comps["M"] = {"type": "object", "additionalProperties": sch}
     elif pos == "allof":
-        if kind not in ("object", "nested", "selfref"):
+        if kind not in ("object", "nested", "selfref", "empty_object", "one_prop"):
             return None
         comps["M"] = {"allOf": [sch, {"type": "object", "properties": {"own": {"type": "string"}}}]}
     elif pos == "param":
